@@ -433,4 +433,209 @@ example : splitStates [.ofType "Param", .any [.withTag "x", .pathContains "bias"
        [(["a", "bias"], ⟨["BatchStat", "Variable"], none⟩)],
        [(["b"], ⟨["Cache"], some "y"⟩)]] := by decide
 
+/-! ## Linen: the Boolean-algebra laws (corollaries of in_union / in_subtract / in_intersect) -/
+
+/-- membership-level laws: commutativity, associativity, absorption, distributivity, De Morgan through
+`DenyList`, double negation, and subtraction as intersection with the complement — for filters of every form
+and nesting depth and every collection name -/
+theorem boolean_algebra_laws (a b c : LFilter) (n : String) :
+    inFilter (union a b) n = inFilter (union b a) n ∧
+    inFilter (intersect a b) n = inFilter (intersect b a) n ∧
+    inFilter (union (union a b) c) n = inFilter (union a (union b c)) n ∧
+    inFilter (intersect (intersect a b) c) n = inFilter (intersect a (intersect b c)) n ∧
+    inFilter (union a (intersect a b)) n = inFilter a n ∧
+    inFilter (intersect a (union a b)) n = inFilter a n ∧
+    inFilter (intersect a (union b c)) n = inFilter (union (intersect a b) (intersect a c)) n ∧
+    inFilter (union a (intersect b c)) n = inFilter (intersect (union a b) (union a c)) n ∧
+    inFilter (deny (union a b)) n = inFilter (intersect (deny a) (deny b)) n ∧
+    inFilter (deny (intersect a b)) n = inFilter (union (deny a) (deny b)) n ∧
+    inFilter (deny (deny a)) n = inFilter a n ∧
+    inFilter (subtract a b) n = inFilter (intersect a (deny b)) n ∧
+    inFilter (union a (deny a)) n = true ∧
+    inFilter (intersect a (deny a)) n = false ∧
+    inFilter (union a ff) n = inFilter a n ∧
+    inFilter (intersect a tt) n = inFilter a n := by
+  simp only [in_union, in_intersect, in_subtract, inFilter]
+  cases inFilter a n <;> cases inFilter b n <;> cases inFilter c n <;> simp
+
+/-! ## NNX: the literal forms accepted by `to_predicate` -/
+
+mutual
+  /-- the predicate combination a literal filter stands for, written down directly (independent of
+  `toPredicate`): a `str` is a tag test, a class an instance test, `True`/`...` everything, `False`/`None`
+  nothing, a list/tuple/`Any` a disjunction, `All` a conjunction, `Not` a negation -/
+  def sdenote : SFilter → Path → VarInfo → Bool
+    | .str s, _, x => decide (x.tag = some s)
+    | .type t, _, x => decide (t ∈ x.types)
+    | .bool b, _, _ => b
+    | .ellipsis, _, _ => true
+    | .none_, _, _ => false
+    | .seq fs, p, x => sdenoteAny fs p x
+    | .any fs, p, x => sdenoteAny fs p x
+    | .allOf fs, p, x => sdenoteAll fs p x
+    | .not f, p, x => !(sdenote f p x)
+    | .pred f, p, x => denote f p x
+  def sdenoteAny : List SFilter → Path → VarInfo → Bool
+    | [], _, _ => false
+    | f :: fs, p, x => sdenote f p x || sdenoteAny fs p x
+  def sdenoteAll : List SFilter → Path → VarInfo → Bool
+    | [], _, _ => true
+    | f :: fs, p, x => sdenote f p x && sdenoteAll fs p x
+end
+
+mutual
+  /-- `to_predicate(f)` denotes the predicate combination `f` stands for, at every nesting depth -/
+  theorem literal_denote : ∀ (f : SFilter) (p : Path) (x : VarInfo),
+      denote (toPredicate f) p x = sdenote f p x
+    | .str s, p, x => by simp [toPredicate, denote, sdenote]
+    | .type t, p, x => by simp [toPredicate, denote, sdenote]
+    | .bool true, p, x => by simp [toPredicate, denote, sdenote]
+    | .bool false, p, x => by simp [toPredicate, denote, sdenote]
+    | .ellipsis, p, x => by simp [toPredicate, denote, sdenote]
+    | .none_, p, x => by simp [toPredicate, denote, sdenote]
+    | .seq fs, p, x => by simp only [toPredicate, denote, sdenote]; exact literal_denote_any fs p x
+    | .any fs, p, x => by simp only [toPredicate, denote, sdenote]; exact literal_denote_any fs p x
+    | .allOf fs, p, x => by simp only [toPredicate, denote, sdenote]; exact literal_denote_all fs p x
+    | .not f, p, x => by simp only [toPredicate, denote, sdenote, literal_denote f p x]
+    | .pred f, p, x => by simp [toPredicate, sdenote]
+  theorem literal_denote_any : ∀ (fs : List SFilter) (p : Path) (x : VarInfo),
+      denoteAny (toPredicates fs) p x = sdenoteAny fs p x
+    | [], p, x => by simp [toPredicates, denoteAny, sdenoteAny]
+    | f :: fs, p, x => by
+        simp only [toPredicates, denoteAny, sdenoteAny, literal_denote f p x, literal_denote_any fs p x]
+  theorem literal_denote_all : ∀ (fs : List SFilter) (p : Path) (x : VarInfo),
+      denoteAll (toPredicates fs) p x = sdenoteAll fs p x
+    | [], p, x => by simp [toPredicates, denoteAll, sdenoteAll]
+    | f :: fs, p, x => by
+        simp only [toPredicates, denoteAll, sdenoteAll, literal_denote f p x, literal_denote_all fs p x]
+end
+
+/-- a list / tuple / `Any` matches iff some member matches, `All` iff every member matches -/
+theorem literal_seq_any_all (fs : List SFilter) (p : Path) (x : VarInfo) :
+    sdenote (.seq fs) p x = fs.any (fun f => sdenote f p x) ∧
+    sdenote (.any fs) p x = fs.any (fun f => sdenote f p x) ∧
+    sdenote (.allOf fs) p x = fs.all (fun f => sdenote f p x) := by
+  simp only [sdenote]
+  refine ⟨?_, ?_, ?_⟩
+  · induction fs with
+    | nil => simp [sdenoteAny]
+    | cons f fs ih => simp [sdenoteAny, ih]
+  · induction fs with
+    | nil => simp [sdenoteAny]
+    | cons f fs ih => simp [sdenoteAny, ih]
+  · induction fs with
+    | nil => simp [sdenoteAll]
+    | cons f fs ih => simp [sdenoteAll, ih]
+
+/-- nested sequences flatten: `(a, (b, c))` denotes the same predicate as `(a, b, c)` -/
+theorem literal_nested_seq_flatten (pre inner post : List SFilter) (p : Path) (x : VarInfo) :
+    denote (toPredicate (.seq (pre ++ .seq inner :: post))) p x
+      = denote (toPredicate (.seq (pre ++ inner ++ post))) p x := by
+  simp only [literal_denote, (literal_seq_any_all _ p x).1, List.any_append, List.any_cons, Bool.or_assoc]
+
+theorem toPredicates_length (fs : List SFilter) : (toPredicates fs).length = fs.length := by
+  induction fs with
+  | nil => simp [toPredicates]
+  | cons f fs ih => simp [toPredicates, ih]
+
+theorem toPredicates_get (fs : List SFilter) (i : Nat) :
+    (toPredicates fs)[i]? = (fs[i]?).map toPredicate := by
+  induction fs generalizing i with
+  | nil => simp [toPredicates]
+  | cons f fs ih => cases i <;> simp [toPredicates, ih]
+
+/-- `...` and `True` match everything -/
+theorem catchAll_matches (f : SFilter) (h : isCatchAll f = true) (p : Path) (x : VarInfo) :
+    denote (toPredicate f) p x = true := by
+  cases f with
+  | bool b => cases b <;> simp_all [isCatchAll, toPredicate, denote]
+  | _ => simp_all [isCatchAll, toPredicate, denote]
+
+/-- the bucket chosen for an item by a split on literal filters, in terms of what the literals stand for:
+no earlier filter matches, the chosen one does, and the extra last bucket means none matches -/
+theorem literal_firstMatch_spec (fs : List SFilter) (p : Path) (x : VarInfo) :
+    (∀ j, j < firstMatch (toPredicates fs) p x → ∀ f, fs[j]? = some f → sdenote f p x = false) ∧
+    (∀ f, fs[firstMatch (toPredicates fs) p x]? = some f → sdenote f p x = true) ∧
+    (firstMatch (toPredicates fs) p x = fs.length → ∀ f ∈ fs, sdenote f p x = false) := by
+  have hs := firstMatch_spec (toPredicates fs) p x
+  refine ⟨?_, ?_, ?_⟩
+  · intro j hj f hf
+    have := hs.1 j hj (toPredicate f) (by simp [toPredicates_get, hf])
+    simpa [literal_denote] using this
+  · intro f hf
+    have := hs.2 (toPredicate f) (by simp [toPredicates_get, hf])
+    simpa [literal_denote] using this
+  · intro hlen f hf
+    obtain ⟨j, hj, rfl⟩ := List.getElem_of_mem hf
+    have := hs.1 j (by omega) (toPredicate fs[j]) (by simp [toPredicates_get, List.getElem?_eq_getElem hj])
+    simpa [literal_denote] using this
+
+/-- **the first catch-all takes everything that is left**: when the filter list is `pre ++ [c] ++ post` with
+`c` one of `...` / `True`, no item goes to a bucket after `c` — neither to the later catch-alls nor to the
+bucket of the unmatched (so `split` never raises "non-exhaustive" and `post`'s groups are empty) -/
+theorem first_catchAll_takes_rest (pre post : List SFilter) (c : SFilter) (hc : isCatchAll c = true)
+    (p : Path) (x : VarInfo) :
+    firstMatch (toPredicates (pre ++ c :: post)) p x ≤ pre.length := by
+  induction pre with
+  | nil => simp [toPredicates, firstMatch, catchAll_matches c hc p x]
+  | cons f pre ih =>
+    simp only [List.cons_append, toPredicates, firstMatch]
+    split
+    · omega
+    · simp only [List.length_cons]; omega
+
+theorem later_buckets_empty (pre post : List SFilter) (c : SFilter) (hc : isCatchAll c = true)
+    (items : List (Path × VarInfo)) (i : Nat) (hi : pre.length < i) :
+    (splitStates (toPredicates (pre ++ c :: post)) items).getD i [] = [] := by
+  apply List.eq_nil_iff_forall_not_mem.mpr
+  intro it hit
+  have := (nnx_split_partition _ items i it).mp hit
+  have hle := first_catchAll_takes_rest pre post c hc it.1 it.2
+  omega
+
+/-- every bucket keeps the order of the input state (it is a sublist of it) -/
+theorem nnx_split_bucket_sublist (preds : List NFilter) (items : List (Path × VarInfo)) (i : Nat) :
+    ((splitStates preds items).getD i []).Sublist items := by
+  simp only [splitStates]
+  by_cases hi : i < preds.length + 1
+  · rw [List.getD_eq_getElem?_getD, List.getElem?_map, List.getElem?_range hi]
+    simp
+  · rw [List.getD_eq_getElem?_getD, List.getElem?_eq_none (by simp; omega)]
+    simp
+
+/-- `filters_to_predicates` rejects exactly the lists in which a `...`/`True` is followed by something else -/
+theorem filtersToPredicates_rejects_iff (fs : List SFilter) :
+    filtersToPredicates fs = Option.none ↔
+      ∃ i j, i < j ∧ j < fs.length ∧ (fs[i]?.map isCatchAll) = some true ∧ (fs[j]?.map isCatchAll) ≠ some true := by
+  have h := ellipsis_must_be_last (fs.map isCatchAll)
+  simp only [filtersToPredicates]
+  constructor
+  · intro hn
+    have hne : ¬ ellipsisOk (fs.map isCatchAll) = true := by
+      intro hok; simp [hok] at hn
+    rw [h] at hne
+    apply Classical.byContradiction
+    intro hno
+    apply hne
+    intro i j hij hj hi
+    apply Classical.byContradiction
+    intro hjn
+    exact hno ⟨i, j, hij, by simpa using hj, by simpa using hi, by simpa using hjn⟩
+  · rintro ⟨i, j, hij, hj, hi, hjn⟩
+    have hne : ¬ ellipsisOk (fs.map isCatchAll) = true := by
+      rw [h]; intro hall
+      exact hjn (by simpa using hall i j hij (by simpa using hj) (by simpa using hi))
+    simp [hne]
+
+example : filtersToPredicates [.type "Param", .ellipsis, .bool true] ≠ Option.none ∧
+    filtersToPredicates [.ellipsis, .type "Param"] = Option.none := by decide
+
+example : splitLiteral [.type "Param", .ellipsis, .ellipsis]
+    [(["a"], ⟨["Param"], none⟩), (["b"], ⟨["Cache"], none⟩), (["c"], ⟨["BatchStat"], some "x"⟩)]
+    = some [[(["a"], ⟨["Param"], none⟩)],
+            [(["b"], ⟨["Cache"], none⟩), (["c"], ⟨["BatchStat"], some "x"⟩)], [], []] := by decide
+
+example : sdenote (.seq [.str "x", .seq [.type "Param", .not (.bool true)]]) ["a"] ⟨["Param"], none⟩ = true := by
+  decide
+
 end Flax.C14
